@@ -223,7 +223,7 @@ def run(P, R, tier):
     # the table's balance rests on the container's pairing rules (anchor: src/set.c insert-replace)
     disp = c19.cleanup_callers(P, R, 'C10.SET.WMC')
     c19.dispose_guards(P, R, disp, 'C10.SET.GRD')
-    c19.count_paths(P, R, 'C10.SET.MPT')
+    c19.count_paths(P, R, 'C10.SET.MPT', disp)
     c19.link_insert(P, R, 'C10.SET.LINK')
     c19.link_remove(P, R, 'C10.SET.LINK')
     c19.use_after_dispose(P, R, disp, 'C10.SET.UAF')
